@@ -28,6 +28,7 @@ func init() {
 func runC44(c *eng.Ctx) {
 	defer runC44Restore(c)
 	defer runC44Pending(c)
+	defer runC44Labels(c)
 	p := c.P
 	A := "rules:AlertingRule"
 	f := c.Fn(A + ".Eval")
